@@ -54,6 +54,7 @@ import (
 const rule = "scenarios of arrivals (priorities), 100 ms ticks, TTL expiry, shutdown and forced interleavings " +
 	"(gates after the slot test / before removal) against the real Queue processor with a fixed-window quota; " +
 	"non-trivial = at least one request allowed and at least one refused (time-out, no slot or shutdown), or a crash; " +
+	"level L1 (the real in-memory shared queue alone, random and exhaustive enqueue/remove/dequeue sequences): a removal and >= 2 dequeues; " +
 	"distinct by (ops, answers)"
 
 const (
@@ -249,6 +250,8 @@ type sim struct {
 	ready   bool
 	drained bool
 	held    bool // the loop stands at the gate before a re-push
+	heldID  int
+	l1      public_types.SharedQueueI
 	reqs    []*reqRec
 	gateQ   []*reqRec
 	handled int
@@ -608,6 +611,7 @@ func (s *sim) tick(holdAtRepush bool) string {
 			for i := len(evs) - 1; i >= 0; i-- {
 				if strings.HasPrefix(evs[i], "x:") {
 					h = evs[i][2:]
+					s.heldID, _ = strconv.Atoi(h)
 					break
 				}
 			}
@@ -631,14 +635,65 @@ func (s *sim) tickRelease() string {
 	s.w.mu.Unlock()
 	s.held = false
 	s.c.Release(ptRepush)
-	okp := s.pump(func() bool { return s.lc.Parked() }, 5*time.Second, s.onAllowed)
+	// the loop finishes its pass (re-push, StopProcessing); then everything that is past its TTL by now
+	// - in particular the request the loop was holding - must be rejected by the watcher (real-time wait)
+	var to []*reqRec
+	var bad []string
+	on := func(r *reqRec) {
+		switch r.verdict {
+		case "allowed":
+			s.w.log("v:" + strconv.Itoa(r.id))
+		case "blocked":
+			to = append(to, r)
+		default:
+			bad = append(bad, fmt.Sprintf("!%s:%d", r.verdict, r.id))
+		}
+	}
+	okp := s.pump(func() bool { return s.lc.Parked() }, 5*time.Second, on)
+	expired := func() int {
+		n := 0
+		for _, r := range s.reqs {
+			if r.waiting && s.now.After(r.arrival.Add(s.ttl)) {
+				n++
+			}
+		}
+		return n
+	}
+	if okp && expired() > 0 {
+		if !s.pump(func() bool { return expired() == 0 }, s.ttl+3*time.Second, on) {
+			bad = append(bad, "stuck")
+		}
+	}
 	s.w.mu.Lock()
 	evs := append([]string(nil), s.w.events...)
 	s.w.mu.Unlock()
 	if !okp {
 		evs = append(evs, "stuck")
 	}
-	return "log=" + joinOr(evs)
+	if !s.awaitRemovals() {
+		evs = append(evs, "stuck-removal")
+	}
+	return "to=" + sortedIDs(to, bad) + " log=" + joinOr(evs)
+}
+
+// advance: the mock clock moves while the loop stands at the gate before a re-push (its timer is
+// not pending then, so no tick is lost).
+func (s *sim) advance(w []string) string {
+	ms, ok := kvI(w, "ms")
+	if !ok || !s.held || ms < 0 || ms > 10000 {
+		return "bad-op"
+	}
+	// only the request the loop holds may run out of TTL by the jump (any other waiter would be
+	// rejected late by construction of the schedule, not by the implementation)
+	then := s.now.Add(time.Duration(ms) * time.Millisecond)
+	for _, r := range s.reqs {
+		if r.waiting && r.id != s.heldID && then.After(r.arrival.Add(s.ttl)) {
+			return "bad-op"
+		}
+	}
+	s.now = then
+	s.mock.Set(s.now)
+	return "ok"
 }
 
 // idle: real time passes (at least one TTL watcher scan: its sleeps never exceed the TTL), the mock
@@ -772,6 +827,63 @@ func (s *sim) close() {
 
 var maxLatAll time.Duration
 
+// ---------------------------------------------------------------- level L1: the shared queue alone
+
+// queueOp drives the real in-memory shared queue (lunar_context.NewMemoryQueue) directly.
+func (s *sim) queueOp(w []string) string {
+	if w[0] == "qnew" {
+		if s.ready || s.l1 != nil || len(w) != 1 {
+			return "bad-op"
+		}
+		s.l1 = lunar_context.NewMemoryQueue("l1", time.Second)
+		return "ok"
+	}
+	if s.l1 == nil {
+		return "bad-op"
+	}
+	switch w[0] {
+	case "q-enq":
+		id, ok1 := kvI(w, "id")
+		prio, ok2 := kvI(w, "prio")
+		if !ok1 || !ok2 || id < 0 || prio < 0 {
+			return "bad-op"
+		}
+		// the queue stamps with time.Now().UnixNano(): make sure two enqueues never share a stamp
+		t := time.Now().UnixNano()
+		for time.Now().UnixNano() == t {
+		}
+		if err := s.l1.Enqueue(fmt.Sprintf("r%d", id), float64(prio)); err != nil {
+			return "err"
+		}
+		t = time.Now().UnixNano()
+		for time.Now().UnixNano() == t {
+		}
+		return "ok"
+	case "q-deq":
+		if len(w) != 1 {
+			return "bad-op"
+		}
+		v := s.l1.DequeueIfValueRelevant()
+		if v == "" {
+			return "-"
+		}
+		return num(v)
+	case "q-rm":
+		id, ok := kvI(w, "id")
+		if !ok || id < 0 {
+			return "bad-op"
+		}
+		s.l1.Remove(fmt.Sprintf("r%d", id))
+		return "ok"
+	case "q-size":
+		if len(w) != 1 {
+			return "bad-op"
+		}
+		return strconv.FormatInt(s.l1.Size(), 10)
+	}
+	return "bad-op"
+}
+
 // ---------------------------------------------------------------- lock coverage (atomicity of the model's steps)
 
 const engDir = "proxy/src/services/lunar-engine/"
@@ -860,15 +972,19 @@ func runCase(ops []string, emit func(string)) {
 			emit(lockOp(w))
 			continue
 		}
+		if w[0] == "qnew" || strings.HasPrefix(w[0], "q-") {
+			emit(s.queueOp(w))
+			continue
+		}
 		if w[0] == "cfg" {
-			if s.ready {
+			if s.ready || s.l1 != nil {
 				emit("bad-op")
 			} else {
 				emit(s.setup(w))
 			}
 			continue
 		}
-		if !s.ready || s.drained || (s.held && w[0] != "arrive" && w[0] != "tick-release" && w[0] != "idle") {
+		if !s.ready || s.drained || (s.held && w[0] != "arrive" && w[0] != "tick-release" && w[0] != "idle" && w[0] != "advance") {
 			emit("bad-op")
 			continue
 		}
@@ -899,6 +1015,8 @@ func runCase(ops []string, emit func(string)) {
 			}
 		case "idle":
 			emit(s.idle(w))
+		case "advance":
+			emit(s.advance(w))
 		case "hold-remove":
 			if s.real {
 				emit("bad-op")
@@ -930,6 +1048,9 @@ func runCase(ops []string, emit func(string)) {
 // Every case runs in a child process (a crash of the processor is then an observation, not the end
 // of the run); VERIF_C06_INPROC=1 runs cases without `drain` in-process (debugging).
 func needsChild(ops []string) bool {
+	if len(ops) > 0 && ops[0] == "qnew" {
+		return false // no goroutines of the implementation involved
+	}
 	if os.Getenv("VERIF_C06_INPROC") == "" {
 		return true
 	}
@@ -1031,6 +1152,10 @@ func execCase(c proto.Case, o *proto.Out) []string {
 		a := outs[i]
 		o.Count("op-" + w[0])
 		switch {
+		case w[0] == "q-deq":
+			if a != "-" {
+				o.Count("l1-dequeue")
+			}
 		case a == "blocked":
 			refused++
 			o.Count("verdict-no-slot")
@@ -1072,6 +1197,20 @@ func execCase(c proto.Case, o *proto.Out) []string {
 			o.Count("wall-clock-ttl-case")
 		case strings.HasPrefix(a, "stuck") || strings.Contains(a, "stuck"):
 			o.Count("stuck")
+		}
+	}
+	if len(c.Ops) > 0 && c.Ops[0] == "qnew" {
+		rm, dq := 0, 0
+		for i, op := range c.Ops {
+			if strings.HasPrefix(op, "q-rm") {
+				rm++
+			}
+			if op == "q-deq" && i < len(outs) && outs[i] != "-" {
+				dq++
+			}
+		}
+		if rm > 0 && dq > 1 {
+			crash = true // counts as non-trivial: a removal and several dequeues
 		}
 	}
 	if (allowed > 0 && refused > 0) || crash {
@@ -1257,6 +1396,136 @@ func genRepush(r *prng.R) []string {
 	return ops
 }
 
+// many waiters of mixed priorities; one of them (queued first, so it sits in the middle of the heap's
+// backing array) is rejected by time-out and removed while the others still wait; then the quota
+// window rolls over and admits several in a row: they must come out in priority order.
+func genHeapShape(r *prng.R) []string {
+	m := r.Range(3, 5)
+	ops := []string{fmt.Sprintf("cfg size=9 ttl=1 max=%d win=2 t0=%d mode=mock", m, baseMs)}
+	id := 0
+	for k := 0; k < m; k++ { // burn the quota of the first window
+		ops = append(ops, fmt.Sprintf("arrive id=%d prio=0", id))
+		id++
+	}
+	ops = append(ops, "tick") // now = 100: window [0, 2000)
+	prios := []int{2, 4, 6, 8, 10, 3, 5, 7, 12, 20}
+	for t := 2; t <= 9; t++ {
+		ops = append(ops, "tick")
+	}
+	early := r.Range(1, 2)
+	for k := 0; k < early; k++ { // arrive at 900: rejected (and removed from the heap) at the tick of the roll-over
+		ops = append(ops, fmt.Sprintf("arrive id=%d prio=%d", id, prng.Pick(r, prios)))
+		id++
+	}
+	ops = append(ops, "tick")
+	late := r.Range(4, 6)
+	first := r.Range(1, late-1)
+	for k := 0; k < first; k++ { // arrive at 1000: still alive at 2000 (`After` is strict)
+		ops = append(ops, fmt.Sprintf("arrive id=%d prio=%d", id, prng.Pick(r, prios)))
+		id++
+	}
+	ops = append(ops, "tick")
+	for k := first; k < late; k++ { // arrive at 1100
+		ops = append(ops, fmt.Sprintf("arrive id=%d prio=%d", id, prng.Pick(r, prios)))
+		id++
+	}
+	// 12..19: refused attempts; 20: the early ones are removed from the middle of the heap, the window
+	// rolls over and m requests are admitted in a row; 21, 22: the rest expire
+	for t := 12; t <= 22; t++ {
+		ops = append(ops, "tick")
+	}
+	return ops
+}
+
+// the TTL of a waiter runs out while the processing loop holds that very waiter in an attempt (gate
+// before the re-push): the watcher cannot reject it then; it must do so once the attempt is over.
+func genExpiryInAttempt(r *prng.R) []string {
+	ops := []string{genCfg(r, 3, 1, 1, 3), "arrive id=0 prio=0", "tick", "arrive id=1 prio=1"}
+	id := 2
+	for t := r.Range(1, 6); t > 0; t-- {
+		ops = append(ops, "tick")
+	}
+	ops = append(ops, "tick-hold", fmt.Sprintf("advance ms=%d", 100*r.Range(10, 14)))
+	if r.Bool() { // a fresh waiter arrives while the loop stands there (its TTL starts after the jump)
+		ops = append(ops, fmt.Sprintf("arrive id=%d prio=%d", id, r.Range(0, 2)))
+		id++
+	}
+	ops = append(ops, "idle ms=1150", "tick-release")
+	if r.Bool() {
+		ops = append(ops, fmt.Sprintf("arrive id=%d prio=0", id))
+	}
+	return append(ops, "tick", "tick")
+}
+
+// level L1, random: the shared queue alone (enqueue / dequeue / re-enqueue after a dequeue / remove)
+func genQueueRandom(r *prng.R) []string {
+	ops := []string{"qnew"}
+	next := 0
+	var present, popped []int
+	spread := prng.Pick(r, []int{2, 4, 50})
+	prio := map[int]int{}
+	for n := r.Range(10, 60); n > 0; n-- {
+		switch c := r.Intn(10); {
+		case c < 4 || len(present) == 0:
+			prio[next] = r.Intn(spread)
+			ops = append(ops, fmt.Sprintf("q-enq id=%d prio=%d", next, prio[next]))
+			present = append(present, next)
+			next++
+		case c < 6:
+			ops = append(ops, "q-deq")
+			popped = nil // which one came out is the implementation's answer: re-enqueue handled below
+		case c < 8:
+			k := r.Intn(len(present))
+			ops = append(ops, fmt.Sprintf("q-rm id=%d", present[k]))
+			present = append(present[:k], present[k+1:]...)
+		case c < 9:
+			// a refused attempt: dequeue ... enqueue the same ids again is not expressible without the
+			// answer; enqueue an id that is (probably) still present again instead: a second entry
+			k := present[r.Intn(len(present))]
+			ops = append(ops, fmt.Sprintf("q-enq id=%d prio=%d", k, prio[k]))
+		default:
+			ops = append(ops, "q-size")
+		}
+	}
+	_ = popped
+	for k := r.Range(0, len(present)+1); k > 0; k-- {
+		ops = append(ops, "q-deq")
+	}
+	return append(ops, "q-size")
+}
+
+// level L1, exhaustive: n waiters with the given priorities, one removed, then all dequeued
+func queueEnumCase(prios []int, rm int, reenq bool) []string {
+	ops := []string{"qnew"}
+	for i, p := range prios {
+		ops = append(ops, fmt.Sprintf("q-enq id=%d prio=%d", i, p))
+	}
+	ops = append(ops, fmt.Sprintf("q-rm id=%d", rm))
+	if reenq {
+		ops = append(ops, fmt.Sprintf("q-enq id=%d prio=%d", len(prios), prios[rm]))
+	}
+	for range prios {
+		ops = append(ops, "q-deq")
+	}
+	return append(ops, "q-size")
+}
+
+func permutations(xs []int, emit func([]int)) {
+	var rec func(k int)
+	rec = func(k int) {
+		if k == len(xs) {
+			emit(append([]int(nil), xs...))
+			return
+		}
+		for i := k; i < len(xs); i++ {
+			xs[k], xs[i] = xs[i], xs[k]
+			rec(k + 1)
+			xs[k], xs[i] = xs[i], xs[k]
+		}
+	}
+	rec(0)
+}
+
 // plain shutdown with waiters
 func genDrain(r *prng.R) []string {
 	ops := []string{genCfg(r, r.Range(1, 4), 2, r.Range(0, 1), 3)}
@@ -1358,9 +1627,9 @@ func malformed(r *prng.R) []string {
 }
 
 func gen(r *prng.R, f proto.Flags, emit func(proto.Case)) {
-	nShort, nLong, nOverlap, nHold, nDrain, nWall, nBad, nBound, nFifo, nHoldExp, nRepush := 26, 12, 6, 6, 5, 1, 4, 2, 6, 2, 6
+	nShort, nLong, nOverlap, nHold, nDrain, nWall, nBad, nBound, nFifo, nHoldExp, nRepush, nHeap, nAttempt, nQueue := 26, 12, 6, 6, 5, 1, 4, 2, 6, 2, 6, 8, 3, 300
 	if f.Tier == "thorough" {
-		nShort, nLong, nOverlap, nHold, nDrain, nWall, nBad, nBound, nFifo, nHoldExp, nRepush = 600, 200, 120, 120, 80, 6, 10, 20, 100, 25, 120
+		nShort, nLong, nOverlap, nHold, nDrain, nWall, nBad, nBound, nFifo, nHoldExp, nRepush, nHeap, nAttempt, nQueue = 600, 200, 120, 120, 80, 6, 10, 20, 100, 25, 120, 40, 15, 3000
 	}
 	id := 0
 	add := func(prefix string, ops []string) {
@@ -1368,6 +1637,25 @@ func gen(r *prng.R, f proto.Flags, emit func(proto.Case)) {
 		emit(proto.Case{ID: fmt.Sprintf("%s%d", prefix, id), Ops: ops})
 	}
 	add("locks", genLocks())
+	// level L1, exhaustive small scope: all priority permutations x all removal positions
+	maxN := 5
+	if f.Tier == "thorough" {
+		maxN = 6
+	}
+	for n := 4; n <= maxN; n++ {
+		base := []int{10, 20, 30, 40, 50, 60}[:n]
+		permutations(append([]int(nil), base...), func(p []int) {
+			for rm := 0; rm < n; rm++ {
+				add("qe", queueEnumCase(p, rm, false))
+			}
+		})
+	}
+	// ... with two equal priorities and a re-enqueue after the removal
+	permutations([]int{10, 20, 20, 30, 40}, func(p []int) {
+		for rm := 0; rm < 5; rm++ {
+			add("qd", queueEnumCase(p, rm, true))
+		}
+	})
 	for b := 0; b < f.Budget; b++ {
 		for k := 0; k < nShort; k++ {
 			add("s", genSequential(r.Fork(), false))
@@ -1391,6 +1679,9 @@ func gen(r *prng.R, f proto.Flags, emit func(proto.Case)) {
 		for k := 0; k < nRepush; k++ {
 			add("r", genRepush(r.Fork()))
 		}
+		for k := 0; k < nQueue; k++ {
+			add("q", genQueueRandom(r.Fork()))
+		}
 		if b > 0 {
 			// widened search (budget > 1): only the classes that cost no real time are multiplied
 			continue
@@ -1400,6 +1691,12 @@ func gen(r *prng.R, f proto.Flags, emit func(proto.Case)) {
 		}
 		for k := 0; k < nHoldExp; k++ {
 			add("x", genHoldExpiry(r.Fork()))
+		}
+		for k := 0; k < nHeap; k++ {
+			add("p", genHeapShape(r.Fork()))
+		}
+		for k := 0; k < nAttempt; k++ {
+			add("a", genExpiryInAttempt(r.Fork()))
 		}
 		for k := 0; k < nBound; k++ {
 			add("b", genBoundary(r.Fork()))
